@@ -461,6 +461,12 @@ func runHubProperty(t *testing.T, prop string, gen func(*rapid.T) Scenario, judg
 		wg.Wait()
 		for i, o := range outs {
 			if o.key == "inconclusive" {
+				// once more, alone (the batch competes for the processors while it starts its hubs)
+				k, m, nt := judge(scs[i])
+				o = out{k, m, nt}
+				outs[i] = o
+			}
+			if o.key == "inconclusive" {
 				st.AddInconclusive()
 				continue
 			}
